@@ -24,6 +24,8 @@ type Sel struct {
 	Dirs   []Dir   `json:"dirs"`
 	HasSub bool    `json:"hassub"`
 	Sub    *SelSet `json:"sub"`
+
+	ArgText string `json:"-"` // rendered verbatim after the field name, e.g. "(n: 4)"
 }
 
 type Frag struct {
@@ -39,6 +41,16 @@ type SelSet struct {
 }
 
 func emptySet() *SelSet { return &SelSet{Sels: []*Sel{}, Frags: []*Frag{}} }
+
+// EmptySet is an empty selection set (never nil slices, for the JSON bridge).
+func EmptySet() *SelSet { return emptySet() }
+
+// RenderPlain renders a query without variables or named fragments.
+func RenderPlain(root *SelSet) string {
+	var b strings.Builder
+	renderSet(root, &b)
+	return b.String()
+}
 
 // logical schema used by the generator (mirrors zoo.Describe)
 type ftype struct {
@@ -199,6 +211,7 @@ func renderSet(ss *SelSet, b *strings.Builder) {
 			b.WriteString(s.Alias + ": ")
 		}
 		b.WriteString(s.Name)
+		b.WriteString(s.ArgText)
 		b.WriteString(renderDirs(s.Dirs))
 		if s.HasSub {
 			b.WriteString(" ")
